@@ -69,6 +69,8 @@ def run_check(prop, tier, base_seed, runs_override=None, workers=None):
     known = kf.for_prop(prop)
     quarantine = sorted({q for k in kf.known for q in m.QUARANTINE_OF.get(k['sig'], ())}) \
         if hasattr(m, 'QUARANTINE_OF') else []
+    if os.environ.get('VERIF_NO_QUARANTINE'):
+        quarantine = []
     out_lines = []
     known_hit = []
 
